@@ -198,7 +198,7 @@ def tstep (s : TState) (ws : List String) : TState × String :=
       match parseInt? k with
       | some k =>
         if d ≠ "fwd" ∧ d ≠ "rev" then bad else
-        let r := foreach (d = "fwd") (fun i _ _ => if (i : Int) = k then 7 else 0) t
+        let r := foreach (d = "fwd") (fun i _ _ => if (i : Int) = k then stopValue k else 0) t
         fin ct s!"{r.1} {evsS r.2}"
       | none => bad
     | ["clear"] =>
